@@ -1,7 +1,7 @@
 use num::bigint::BigInt;
 use num::traits::FloatConst;
 use num::{
-    BigRational, CheckedAdd, CheckedDiv, CheckedMul, CheckedSub, FromPrimitive, Rational64, Signed,
+    BigRational, CheckedAdd, CheckedMul, CheckedSub, FromPrimitive, Rational64, Signed,
 };
 use num::{Num, Rational32, ToPrimitive};
 use std::cmp::Ordering;
@@ -262,7 +262,12 @@ impl Number {
             Number::Fixnum(num) => num.unsigned_abs().into(),
             Number::Float(num) => num.abs().into(),
             Number::BigInt(num) => num.abs().into(),
-            Number::Rational(num) => num.abs().into(),
+            Number::Rational(num) => match num.numer().checked_abs() {
+                Some(numer) => Rational32::new_raw(numer, *num.denom()).into(),
+                // |-2^31 / d| does not fit a 32 bit numerator
+                None if *num.denom() == 1 => Number::Fixnum((*num.numer() as i64).abs()),
+                None => num.to_f64().unwrap_or(f64::NAN).abs().into(),
+            },
         }
     }
 
@@ -278,7 +283,12 @@ impl Number {
             Number::Fixnum(_) => self.clone(),
             Number::Float(num) => num.round().into(),
             Number::BigInt(_) => self.clone(),
-            Number::Rational(num) => num.round().into(),
+            // rounded with 64 bit intermediates (numer +- denom may exceed 32 bits)
+            Number::Rational(num) => Number::Fixnum(
+                Rational64::new_raw(*num.numer() as i64, *num.denom() as i64)
+                    .round()
+                    .to_integer(),
+            ),
         }
     }
 
@@ -287,7 +297,12 @@ impl Number {
             Number::Fixnum(_) => self.clone(),
             Number::Float(num) => num.floor().into(),
             Number::BigInt(_) => self.clone(),
-            Number::Rational(num) => num.floor().into(),
+            // rounded with 64 bit intermediates (numer +- denom may exceed 32 bits)
+            Number::Rational(num) => Number::Fixnum(
+                Rational64::new_raw(*num.numer() as i64, *num.denom() as i64)
+                    .floor()
+                    .to_integer(),
+            ),
         }
     }
 
@@ -296,7 +311,12 @@ impl Number {
             Number::Fixnum(_) => self.clone(),
             Number::Float(num) => num.ceil().into(),
             Number::BigInt(_) => self.clone(),
-            Number::Rational(num) => num.ceil().into(),
+            // rounded with 64 bit intermediates (numer +- denom may exceed 32 bits)
+            Number::Rational(num) => Number::Fixnum(
+                Rational64::new_raw(*num.numer() as i64, *num.denom() as i64)
+                    .ceil()
+                    .to_integer(),
+            ),
         }
     }
 
@@ -318,11 +338,27 @@ impl Number {
             Number::Float(num) => num.powf(exp as f64).into(),
             Number::BigInt(lhs) => lhs.pow(exp).into(),
             Number::Rational(num) => {
-                if exp.to_i32().is_some() {
-                    num.pow(exp as i32).into()
-                } else {
-                    num.to_f64().unwrap_or(f64::NAN).powf(exp as f64).into()
+                // exact while numerator and denominator stay within 32 bits,
+                // an integer if the denominator is 1, a float otherwise
+                let numer = BigInt::from(*num.numer());
+                let denom = BigInt::from(*num.denom());
+                if exp <= 4096 {
+                    let (numer, denom) = (numer.pow(exp), denom.pow(exp));
+                    match (numer.to_i32(), denom.to_i32()) {
+                        (Some(numer), Some(denom)) => {
+                            return Rational32::new_raw(numer, denom).into();
+                        }
+                        _ if denom == BigInt::from(1) => return numer.into(),
+                        // the exact power, rounded once
+                        _ => {
+                            return BigRational::new(numer, denom)
+                                .to_f64()
+                                .unwrap_or(f64::NAN)
+                                .into();
+                        }
+                    }
                 }
+                num.to_f64().unwrap_or(f64::NAN).powf(exp as f64).into()
             }
         }
     }
@@ -469,6 +505,41 @@ impl PartialOrd for Number {
     }
 }
 
+/// 32 bit rational arithmetic carried out with 64 bit intermediates: the
+/// result is None only if the reduced result does not fit, never because an
+/// intermediate term overflowed or i32::MIN could not be negated.
+fn rational32_op(
+    lhs: &Rational32,
+    rhs: &Rational32,
+    op: fn(Rational64, Rational64) -> Rational64,
+) -> Option<Rational32> {
+    let widen = |num: &Rational32| Rational64::new_raw(*num.numer() as i64, *num.denom() as i64);
+    let result = op(widen(lhs), widen(rhs));
+    match (result.numer().to_i32(), result.denom().to_i32()) {
+        (Some(numer), Some(denom)) => Some(Rational32::new_raw(numer, denom)),
+        _ => None,
+    }
+}
+
+/// Division as rational32_op; None for a zero divisor.
+fn rational32_div(lhs: &Rational32, rhs: &Rational32) -> Option<Rational32> {
+    if *rhs.numer() == 0 {
+        return None;
+    }
+    rational32_op(lhs, rhs, |lhs, rhs| lhs / rhs)
+}
+
+/// The quotient of two 32 bit integers: a 32 bit rational, or the integer
+/// 2^31 that -2^31 / -1 yields.
+fn rational32_new(numer: i32, denom: i32) -> Number {
+    let ratio = Rational64::new(numer as i64, denom as i64);
+    match (ratio.numer().to_i32(), ratio.denom().to_i32()) {
+        (Some(numer), Some(denom)) => Rational32::new_raw(numer, denom).into(),
+        _ if ratio.is_integer() => Number::Fixnum(*ratio.numer()),
+        _ => (numer as f64 / denom as f64).into(),
+    }
+}
+
 impl AddAssign for Number {
     fn add_assign(&mut self, rhs: Self) {
         let result = &*self + &rhs;
@@ -512,7 +583,7 @@ impl Add for &Number {
                 Number::Rational(rhs) => {
                     if lhs.to_i32().is_some() {
                         let lhs_rational = Rational32::from_integer(*lhs as i32);
-                        match lhs_rational.checked_add(rhs) {
+                        match rational32_op(&lhs_rational, rhs, |lhs, rhs| lhs + rhs) {
                             Some(num) => num.into(),
                             None => (*lhs as f64 + rhs.to_f64().unwrap_or(f64::NAN)).into(),
                         }
@@ -543,7 +614,7 @@ impl Add for &Number {
                 Number::Fixnum(rhs) => {
                     if rhs.to_i32().is_some() {
                         let rhs_rational = Rational32::from_integer(*rhs as i32);
-                        match rhs_rational.checked_add(lhs) {
+                        match rational32_op(&rhs_rational, lhs, |lhs, rhs| lhs + rhs) {
                             Some(num) => num.into(),
                             None => (lhs.to_f64().unwrap_or(f64::NAN) + *rhs as f64).into(),
                         }
@@ -559,7 +630,7 @@ impl Add for &Number {
                         (rhs.to_f64().unwrap() + lhs.to_f64().unwrap_or(f64::NAN)).into()
                     }
                 }
-                Number::Rational(rhs) => match lhs.checked_add(rhs) {
+                Number::Rational(rhs) => match rational32_op(lhs, rhs, |lhs, rhs| lhs + rhs) {
                     Some(num) => num.into(),
                     None => {
                         (lhs.to_f64().unwrap_or(f64::NAN) + rhs.to_f64().unwrap_or(f64::NAN)).into()
@@ -592,7 +663,7 @@ impl Mul for &Number {
                 Number::Rational(rhs) => {
                     if lhs.to_i32().is_some() {
                         let lhs_rational = Rational32::from_integer(*lhs as i32);
-                        match lhs_rational.checked_mul(rhs) {
+                        match rational32_op(&lhs_rational, rhs, |lhs, rhs| lhs * rhs) {
                             Some(num) => num.into(),
                             None => (*lhs as f64 * rhs.to_f64().unwrap_or(f64::NAN)).into(),
                         }
@@ -623,7 +694,7 @@ impl Mul for &Number {
                 Number::Fixnum(rhs) => {
                     if rhs.to_i32().is_some() {
                         let rhs_rational = Rational32::from_integer(*rhs as i32);
-                        match rhs_rational.checked_mul(lhs) {
+                        match rational32_op(&rhs_rational, lhs, |lhs, rhs| lhs * rhs) {
                             Some(num) => num.into(),
                             None => (lhs.to_f64().unwrap_or(f64::NAN) * *rhs as f64).into(),
                         }
@@ -639,7 +710,7 @@ impl Mul for &Number {
                         (rhs.to_f64().unwrap() * lhs.to_f64().unwrap_or(f64::NAN)).into()
                     }
                 }
-                Number::Rational(rhs) => match lhs.checked_mul(rhs) {
+                Number::Rational(rhs) => match rational32_op(lhs, rhs, |lhs, rhs| lhs * rhs) {
                     Some(num) => num.into(),
                     None => {
                         (lhs.to_f64().unwrap_or(f64::NAN) * rhs.to_f64().unwrap_or(f64::NAN)).into()
@@ -672,7 +743,7 @@ impl Sub for &Number {
                 Number::Rational(rhs) => {
                     if lhs.to_i32().is_some() {
                         let lhs_rational = Rational32::from_integer(*lhs as i32);
-                        match lhs_rational.checked_sub(rhs) {
+                        match rational32_op(&lhs_rational, rhs, |lhs, rhs| lhs - rhs) {
                             Some(num) => num.into(),
                             None => (*lhs as f64 - rhs.to_f64().unwrap_or(f64::NAN)).into(),
                         }
@@ -703,7 +774,7 @@ impl Sub for &Number {
                 Number::Fixnum(rhs) => {
                     if rhs.to_i32().is_some() {
                         let rhs_rational = Rational32::from_integer(*rhs as i32);
-                        match lhs.checked_sub(&rhs_rational) {
+                        match rational32_op(lhs, &rhs_rational, |lhs, rhs| lhs - rhs) {
                             Some(num) => num.into(),
                             None => (lhs.to_f64().unwrap_or(f64::NAN) - *rhs as f64).into(),
                         }
@@ -719,7 +790,7 @@ impl Sub for &Number {
                         (lhs.to_f64().unwrap_or(f64::NAN) - rhs.to_f64().unwrap()).into()
                     }
                 }
-                Number::Rational(rhs) => match lhs.checked_sub(rhs) {
+                Number::Rational(rhs) => match rational32_op(lhs, rhs, |lhs, rhs| lhs - rhs) {
                     Some(num) => num.into(),
                     None => {
                         (lhs.to_f64().unwrap_or(f64::NAN) - rhs.to_f64().unwrap_or(f64::NAN)).into()
@@ -745,14 +816,14 @@ impl Div for &Number {
             Number::Fixnum(lhs) => match rhs {
                 Number::Fixnum(rhs) => {
                     if lhs.to_i32().is_some() && rhs.to_i32().is_some() {
-                        Rational32::new(*lhs as i32, *rhs as i32).into()
+                        rational32_new(*lhs as i32, *rhs as i32)
                     } else {
                         (*lhs as f64 / *rhs as f64).into()
                     }
                 }
                 Number::BigInt(rhs) => {
                     if lhs.to_i32().is_some() && rhs.to_i32().is_some() {
-                        Rational32::new(*lhs as i32, rhs.to_i32().unwrap()).into()
+                        rational32_new(*lhs as i32, rhs.to_i32().unwrap())
                     } else {
                         (*lhs as f64 / rhs.to_f64().unwrap_or(f64::NAN)).into()
                     }
@@ -760,7 +831,7 @@ impl Div for &Number {
                 Number::Float(rhs) => (*lhs as f64 / rhs).into(),
                 Number::Rational(rhs) => {
                     if lhs.to_i32().is_some() {
-                        match Rational32::from_integer(*lhs as i32).checked_div(rhs) {
+                        match rational32_div(&Rational32::from_integer(*lhs as i32), rhs) {
                             Some(num) => num.into(),
                             None => (*lhs as f64 / rhs.to_f64().unwrap_or(f64::NAN)).into(),
                         }
@@ -772,14 +843,14 @@ impl Div for &Number {
             Number::BigInt(lhs) => match rhs {
                 Number::Fixnum(rhs) => {
                     if lhs.to_i32().is_some() && rhs.to_i32().is_some() {
-                        (Rational32::new(lhs.to_i32().unwrap(), *rhs as i32)).into()
+                        rational32_new(lhs.to_i32().unwrap(), *rhs as i32)
                     } else {
                         (lhs.to_f64().unwrap_or(f64::NAN) / *rhs as f64).into()
                     }
                 }
                 Number::BigInt(rhs) => {
                     if lhs.to_i32().is_some() && rhs.to_i32().is_some() {
-                        (Rational32::new(lhs.to_i32().unwrap(), rhs.to_i32().unwrap())).into()
+                        rational32_new(lhs.to_i32().unwrap(), rhs.to_i32().unwrap())
                     } else {
                         (lhs.to_f64().unwrap_or(f64::NAN) / rhs.to_f64().unwrap_or(f64::NAN)).into()
                     }
@@ -787,7 +858,8 @@ impl Div for &Number {
                 Number::Float(rhs) => (lhs.to_f64().unwrap() / *rhs).into(),
                 Number::Rational(rhs) => {
                     if lhs.to_i32().is_some() {
-                        match Rational32::from_integer(lhs.to_i32().unwrap()).checked_div(rhs) {
+                        match rational32_div(&Rational32::from_integer(lhs.to_i32().unwrap()), rhs)
+                        {
                             Some(num) => num.into(),
                             None => {
                                 (lhs.to_f64().unwrap() / rhs.to_f64().unwrap_or(f64::NAN)).into()
@@ -807,7 +879,7 @@ impl Div for &Number {
             Number::Rational(lhs) => match rhs {
                 Number::Fixnum(rhs) => {
                     if rhs.to_i32().is_some() {
-                        match lhs.checked_div(&Rational32::from_integer(*rhs as i32)) {
+                        match rational32_div(lhs, &Rational32::from_integer(*rhs as i32)) {
                             Some(num) => num.into(),
                             None => (lhs.to_f64().unwrap_or(f64::MAX) / *rhs as f64).into(),
                         }
@@ -818,7 +890,8 @@ impl Div for &Number {
                 Number::Float(rhs) => (lhs.to_f64().unwrap_or(f64::NAN) / *rhs).into(),
                 Number::BigInt(rhs) => {
                     if rhs.to_i32().is_some() {
-                        match lhs.checked_div(&Rational32::from_integer(rhs.to_i32().unwrap())) {
+                        match rational32_div(lhs, &Rational32::from_integer(rhs.to_i32().unwrap()))
+                        {
                             Some(num) => num.into(),
                             None => {
                                 (lhs.to_f64().unwrap_or(f64::MAX) / rhs.to_f64().unwrap()).into()
@@ -828,7 +901,7 @@ impl Div for &Number {
                         (lhs.to_f64().unwrap_or(f64::MAX) / rhs.to_f64().unwrap()).into()
                     }
                 }
-                Number::Rational(rhs) => match lhs.checked_div(rhs) {
+                Number::Rational(rhs) => match rational32_div(lhs, rhs) {
                     Some(num) => num.into(),
                     None => {
                         (lhs.to_f64().unwrap_or(f64::NAN) / rhs.to_f64().unwrap_or(f64::NAN)).into()
